@@ -31,6 +31,8 @@ CORPUS = [
     # bot intents that name context variables which are not strings
     # generated flows that parse but are long, loop for ever or call something that does not exist
     "bot a\n" + "".join(f"bot say something {i}\n" for i in range(40)), "bot a\nwhile True\n  $x = 1", "bot a\ndo something undefined\nbot b", "bot a\nif $foo.bar\n  bot b",
+    # longer than the prompt budget of the following call (the history has to be cut to fit)
+    "w" * 20000, "ask " + "z" * 20000, "  ask\nbot " + "v" * 20000,
     "bot $event", "bot $generation_options", "bot $relevant_chunks", "bot $last_user_message", "  ask\nbot $event",
 ]
 
@@ -102,8 +104,12 @@ class TurnTimeout(BaseException):
     pass
 
 
+_IN_TURN = [False]
+
+
 def _on_alarm(*_a):
-    raise TurnTimeout("the turn did not complete within the wall-clock horizon")
+    if _IN_TURN[0]:     # (never inside the worker pool's own code)
+        raise TurnTimeout("the turn did not complete within the wall-clock horizon")
 
 
 TURN_HORIZON_S = 20
@@ -114,9 +120,11 @@ def run_turn_guarded(world, *a, **kw):
     import signal
     signal.signal(signal.SIGALRM, _on_alarm)
     signal.alarm(TURN_HORIZON_S)
+    _IN_TURN[0] = True
     try:
         return rw.run_turn(world, *a, **kw)
     finally:
+        _IN_TURN[0] = False
         signal.alarm(0)
 
 
